@@ -112,6 +112,16 @@ def run_cases(mod, ctx, indices, deadline=None):
 def worker_main(prop, tier, seed, k, nworkers, outpath):
     from . import env  # noqa: F401
 
+    # resident-memory cap: a library change that makes an operation grow without bound must end
+    # in a MemoryError inside the case (judged there), not in the OOM killer
+    try:
+        import resource
+
+        cap = int(os.environ.get("VERIF_WORKER_MEM_GB", "3")) << 30
+        resource.setrlimit(resource.RLIMIT_AS, (cap, cap))
+    except Exception:
+        pass
+
     mod = load_prop(prop)
     ctx = Ctx(mod.ID, tier, seed)
     n = mod.cases(tier)
